@@ -242,7 +242,9 @@ func (dao *Simple) GetTokenTransferLog(acc util.Uint160, newestTimestamp uint64,
 		}
 		return nil, err
 	}
-	return &state.TokenTransferLog{Raw: value}, nil
+	// Append modifies the log in place, so it must not share memory with the
+	// item kept by the storage layer.
+	return &state.TokenTransferLog{Raw: bytes.Clone(value)}, nil
 }
 
 // PutTokenTransferLog saves the given transfer log in the cache.
